@@ -153,6 +153,9 @@ func c08Typestate(c *Ctx) {
 		if !ok || ins == ssa.Instruction(nameCall) {
 			return
 		}
+		if h := directCallee(ci); h != nil && newHelpers[h] {
+			return // handed to a new helper: the uses inside it are looked at (its parameter resolves to the name)
+		}
 		for _, a := range ci.Common().Args {
 			if isFinal(a) {
 				uses++
@@ -184,6 +187,9 @@ func c08SoleWriter(c *Ctx) {
 				ci, ok := ins.(ssa.CallInstruction)
 				if !ok || ins == ssa.Instruction(nameCall) {
 					return
+				}
+				if h := directCallee(ci); h != nil && newHelpers[h] {
+					return // the uses inside the new helper are looked at
 				}
 				for i, a := range ci.Common().Args {
 					derived := false
